@@ -969,6 +969,9 @@ class _Judge:
             if fam in ("ffill-bfill", "shift", "transform") and f["shuffle-plan"] and not f["index-unique"]:
                 return "after-shuffle&duplicate-index-labels"
             return "other"
+        if fam == "agg" and f["cat-key"] and f["observed"] is False and {"median", "size"} <= set(_agg_funcs(op)):
+            # the holistic path appends one placeholder row per unobserved category and partition; size counts them
+            return "agg[median+size]&cat-key&observed=False"
         spans = None
         if fam in ("idxmin-idxmax", "first-last") or (fam == "agg" and self.odep):
             try:
@@ -1224,6 +1227,11 @@ def _canonicalise(case, feats, items):
             it["label"] = "%s:empty-frame:%s" % (_group(it["fam"]), _symptom_class(it))
         if it["pred"] == "empty-result":
             it["label"] = "%s:empty-result:%s" % (_group(it["fam"]), _symptom_class(it))
+        for feature in ABLATIONS:
+            # the staged comparison verified the feature on the witness (e.g. "the duplicated groups are ..."):
+            # all its symptom variants are one mechanism
+            if it["verified"] and (it["pred"] == feature or it["pred"].startswith(feature + "&")):
+                it["label"], it["canonical"] = "%s:%s" % (_group(it["fam"]), feature), True
     for feature in ABLATIONS:
         elig = [it for it in items if not it.get("canonical") and (feature in it["pred"] or not it["verified"])]
         if not elig:
